@@ -41,7 +41,28 @@ def p_lossless(t):
         d8 = debcon.Debian822(t).to_dict()
         if d8 != single:
             return 'Debian822(text).to_dict() %r differs from get_paragraph_data %r' % (d8, single)
+    if t.strip() and not t.lstrip().startswith('-----BEGIN PGP SIGNED MESSAGE-----'):
+        # no clear-sign envelope around the text: the mapping object must not lose words either
+        try:
+            d8 = debcon.Debian822(t).to_dict()
+        except Exception as e:  # noqa
+            return 'Debian822(text) raises %s' % type(e).__name__
+        for w in t.split():
+            if not covered(w, d8):
+                return 'word %r of the input is lost by Debian822(text).to_dict(): %r' % (w, d8)
     return None
+
+
+def embedded_signed(rng):
+    """a well-formed clear-signed block with text before and/or after it: not an envelope around the whole text"""
+    body = '\n'.join(G.words_line(rng) for _ in range(rng.randint(1, 3)))
+    block = ('-----BEGIN PGP SIGNED MESSAGE-----\nHash: SHA512\n\n' + body +
+             '\n-----BEGIN PGP SIGNATURE-----\n\niQEzBAEBCgAdFiEE\n=abcd\n-----END PGP SIGNATURE-----')
+    pre = rng.choice(['', 'Package: x\n', 'intro words\n', 'a: 1\nb: 2\n'])
+    post = rng.choice(['', '\ntrailing words', '\nc: 3', '\n'])
+    if not pre and post in ('', '\n'):
+        pre = 'lead: in\n'
+    return pre + block + post
 
 
 def dedupe(xs):
@@ -65,9 +86,33 @@ def p_merge(items):
     return None
 
 
+def p_merge_multiline(items):
+    """values with continuation lines, possibly holding identical lines: what is stored under the first
+    occurrence is its lines followed by every later value that is not one of the lines, newline-separated"""
+    text = '\n'.join('%s: %s' % (n, v) for n, v in items) + '\n'
+    data = debcon.get_paragraph_data(text)
+    keys = dedupe([n.lower() for n, _ in items])
+    if list(data) != keys:
+        return 'keys %r, expected first occurrences %r' % (list(data), keys)
+    for k in keys:
+        vals = [v.strip() for n, v in items if n.lower() == k]
+        lines = vals[0].splitlines() if len(vals) > 1 else None
+        if lines is None:
+            want = vals[0]
+        else:
+            for v in vals[1:]:
+                if v not in lines:
+                    lines.extend(v.splitlines() or [''])
+            want = '\n'.join(lines)
+        if data[k] != want:
+            return 'field %r merges to %r, expected %r (items %r)' % (k, data[k], want, items)
+    return None
+
+
 def run(ctx):
     rng = ctx.rng
     texts = [emailish_text(rng) for _ in range(ctx.n(8000, 100000))]
+    texts += [embedded_signed(rng) for _ in range(ctx.n(300, 3000))]
     texts += [G.control_text(rng) for _ in range(ctx.n(6000, 80000))]
     texts += [D.render(rng, D.document(rng)) for _ in range(ctx.n(2000, 30000))]
     texts += [G.unicode_text(rng, 40) for _ in range(ctx.n(1000, 20000))]
@@ -86,6 +131,15 @@ def run(ctx):
         pats.append([(rng.choice(names), rng.choice(vals)) for _ in range(rng.randint(1, 8))])
     pats = [[(n, ' '.join(v.split())) for n, v in p] for p in pats]
     fails += ctx.prop('prop:merge', pats, p_merge)
+    mpats = []
+    for _ in range(ctx.n(2000, 30000)):
+        names = rng.sample(['Description', 'description', 'A', 'x-y'], rng.randint(1, 2))
+        def mval():
+            first = rng.choice(['syn', 'one two', 'x'])
+            conts = [rng.choice([' .', ' a', ' b c', '  v', ' .']) for _ in range(rng.randint(0, 5))]
+            return '\n'.join([first] + conts)
+        mpats.append([(rng.choice(names), mval() if rng.random() < .7 else rng.choice(['syn', 'z', 'a'])) for _ in range(rng.randint(2, 5))])
+    fails += ctx.prop('prop:merge-multiline', mpats, p_merge_multiline)
     bad = ctx.compare('corr:get_paragraph_data', [('get_paragraph_data', [t]) for t in texts], _debcon.impl)
     bad += ctx.compare('corr:get_paragraphs_data', [('get_paragraphs_data', [t]) for t in texts[:ctx.n(8000, 100000)]], _debcon.impl)
     bad += ctx.compare('corr:merge', [('get_paragraph_data', ['\n'.join('%s: %s' % kv for kv in p)]) for p in pats], _debcon.impl)
